@@ -620,6 +620,8 @@ pub struct View {
     pub dr: u8,
     pub nb_state: i64,
     pub steps: usize,
+    /// the current session serialised (serde JSON), if any
+    pub session_doc: Option<String>,
 }
 
 pub type GenFn<'g> = dyn FnMut(&View) -> Option<Op> + 'g;
@@ -657,6 +659,7 @@ fn view_of<const P: u8, const G: i8>(dev: &mut Dev<P, G>, steps: usize) -> View 
         dr: snap.data_rate,
         nb_state: dev.nb_state(),
         steps,
+        session_doc: s.as_ref().and_then(|s| serde_json::to_string(s).ok()),
     }
 }
 
@@ -907,6 +910,22 @@ pub fn some_cmd(rng: &mut StdRng, region: &str) -> Vec<u8> {
 
 pub fn cmd_stream(rng: &mut StdRng, region: &str, max_len: usize) -> Vec<u8> {
     let mut s: Vec<u8> = vec![];
+    if max_len >= 40 && rng.gen_ratio(1, 8) {
+        // more answers than fit in 15 bytes, with a short answer behind a long one
+        let k = rng.gen_range(5..=7);
+        for i in 0..k {
+            s.extend_from_slice(&[0x03, 0xff, 0xff, 0xff, if region == "US915" || region == "AU915" { 0x60 } else { 0x00 }]);
+            if i == 2 && rng.gen_bool(0.5) {
+                s.extend_from_slice(&[0x04, 0x01]); // DutyCycleReq splits the block (no answer)
+            }
+        }
+        s.push(0x06); // DevStatusReq: 3-byte answer
+        s.extend_from_slice(&[0x08, 0x03]); // RXTimingSetupReq: 1-byte answer
+        if rng.gen_bool(0.5) {
+            s.push(0x06);
+        }
+        return s;
+    }
     let n = [0, 1, 1, 2, 2, 3, 4, 6][rng.gen_range(0..8)];
     for _ in 0..n {
         let c = if rng.gen_ratio(1, 3) && !s.is_empty() && s[0] == 0x03 {
@@ -943,6 +962,12 @@ pub struct GenCfg {
     pub p_rejoin: f64,
     /// enumerate DLSettings / RxDelay of JoinAccepts systematically
     pub ja_enum: bool,
+    /// application misuse the type system allows (C04): data on port 0, oversize payloads, any data rate
+    pub misuse: bool,
+    /// persistence profile (C20): probability of a serialise/deserialise/install step and of a
+    /// structurally mutated session document per op
+    pub p_serde: f64,
+    pub p_badsession: f64,
     /// systematic receive-window table walk (C10): stride through (uplink DR, RX1 offset, RX2 DR, RxDelay)
     pub rxwin_stride: usize,
 }
@@ -1265,10 +1290,22 @@ impl Gen {
                 plan: self.plan(v, true),
             });
         }
+        if self.rng.gen_bool(self.cfg.p_serde) {
+            return Some(Op::SerDe);
+        }
+        if self.cfg.front == "nb" && self.rng.gen_bool(self.cfg.p_badsession) {
+            if let Some(doc) = &v.session_doc {
+                return Some(Op::SetSession { doc: mutate_doc(&mut self.rng, doc) });
+            }
+        }
         Some(match self.rng.gen_range(0..100) {
             0..=64 => {
                 let port = if self.rng.gen_ratio(1, 12) { 0 } else { self.rng.gen_range(1..=223) };
-                let n = if port == 0 { 0 } else { self.rng.gen_range(0..8) };
+                let mut n = if port == 0 { 0 } else { self.rng.gen_range(0..8) };
+                if self.cfg.misuse && self.rng.gen_ratio(1, 25) {
+                    // misuse the type system allows: data on port 0, payloads up to 255 bytes
+                    n = if port == 0 { self.rng.gen_range(1..4) } else { [200usize, 227, 228, 240, 241, 242, 243, 255][self.rng.gen_range(0..8)] };
+                }
                 Op::Send {
                     port,
                     data: rnd_vec(&mut self.rng, n),
@@ -1277,7 +1314,9 @@ impl Gen {
                     plan: self.plan(v, false),
                 }
             }
-            65..=70 => Op::SetDr { dr: [0u8, 1, 2, 3, 4, 5][self.rng.gen_range(0..6)] },
+            65..=70 => Op::SetDr {
+                dr: if self.cfg.misuse && self.rng.gen_ratio(1, 6) { self.rng.gen_range(0..16) } else { [0u8, 1, 2, 3, 4, 5][self.rng.gen_range(0..6)] },
+            },
             71..=74 => Op::SetAdr { on: self.rng.gen_bool(0.5) },
             75..=84 => Op::TakeDl,
             85..=89 => Op::SerDe,
@@ -1320,6 +1359,36 @@ pub fn seeded_session(rng: &mut StdRng, profile: &str) -> Option<String> {
     let d = downs[rng.gen_range(0..downs.len())];
     v["fcnt_down"] = if d < 0 { Value::Null } else { json!(d) };
     Some(v.to_string())
+}
+
+/// Structural mutation of a serialised session document (C20: malformed documents must be refused or
+/// yield a session on which every operation stays panic-free).
+pub fn mutate_doc(rng: &mut StdRng, doc: &str) -> String {
+    let mut v: Value = serde_json::from_str(doc).unwrap();
+    let big = json!(18446744073709551615u64);
+    match rng.gen_range(0..16) {
+        0 => { v.as_object_mut().unwrap().remove("fcnt_up"); }
+        1 => { v.as_object_mut().unwrap().remove("fcnt_down"); }
+        2 => { v["fcnt_down"] = Value::Null; }
+        3 => { v["uplink"]["pending_len"] = json!(rng.gen_range(0..=255)); }
+        4 => { v["uplink"]["pending_len"] = json!(15); let d: Vec<u8> = (0..15).map(|_| rng.r#gen()).collect(); v["uplink"]["pending_data"] = json!(d); }
+        5 => { v["uplink"]["pending_data"] = json!([1, 2, 3]); }
+        6 => { v["fcnt_up"] = big; }
+        7 => { v["fcnt_up"] = json!(-1); }
+        8 => { v["fcnt_up"] = json!("7"); }
+        9 => { v["confirmed"] = json!(1); }
+        10 => { v["adr_ack_cnt"] = json!([63u32, 64, 95, 96, 1_000_000][rng.gen_range(0..5)]); }
+        11 => { v["fcnt_down"] = json!(4294967295u64); v["fcnt_up"] = json!(4294967295u64); }
+        12 => { v["uplink"].as_object_mut().unwrap().remove("confirmed"); }
+        13 => { v["extra"] = json!({"x": 1}); }
+        14 => { let d: Vec<u8> = (0..16).map(|_| rng.r#gen()).collect(); v["uplink"]["pending_data"] = json!(d); }
+        _ => {
+            // duplicate key: done textually
+            let t = v.to_string();
+            return t.replacen("{", "{\"fcnt_up\":1,", 1);
+        }
+    }
+    v.to_string()
 }
 
 fn reset_op(rng: &mut StdRng, region: &str, front: &str, classc: bool) -> Op {
@@ -1366,6 +1435,7 @@ pub fn vh_mac(a: &Args) {
                 // weight presets per property profile
                 let profile = a.get("profile").unwrap_or("mixed");
                 let (p_rejoin, ja_enum) = if profile == "join" { (0.35, true) } else { (0.0, false) };
+                let (p_serde, p_badsession) = if profile == "persist" { (0.3, 0.12) } else { (0.0, 0.0) };
                 let (p_downlink, p_cmds, p_reject, p_fault) = match profile {
                     "fcnt" => (0.9, 0.1, 0.5, 0.02),
                     "join" => (0.5, 0.7, 0.2, 0.03),
@@ -1374,12 +1444,14 @@ pub fn vh_mac(a: &Args) {
                     "cmds" => (0.95, 1.0, 0.08, 0.02),
                     "tx" => (0.6, 0.9, 0.1, 0.02),
                     "adr" => (0.04, 0.3, 0.3, 0.01),
+                    "persist" => (0.6, 0.8, 0.3, 0.05),
                     "hostile" => (0.7, 0.8, 0.35, 0.08),
                     _ => (0.45, 0.6, 0.3, 0.06),
                 };
                 let mut g = Gen::new(seed, GenCfg {
                     region: region.clone(), front: fr.into(), classc, max_steps: steps, appkey: rng.r#gen(),
-                    p_downlink, p_cmds, p_reject, p_fault, p_rejoin, ja_enum,
+                    p_downlink, p_cmds, p_reject, p_fault, p_rejoin, ja_enum, p_serde, p_badsession,
+                    misuse: profile == "hostile",
                     rxwin_stride: if profile == "rxwin" { a.get_usize("stride", if a.thorough { 1 } else { 3 }) } else { 0 },
                 });
                 let mut f = |v: &View| g.next(v);
